@@ -778,7 +778,10 @@ func genC05(r *Run) {
 // ---------------------------------------------------------------------
 // C06: decode -> encode -> decode fixpoint on the public API.
 
-func oracleC06v6(r *Run, b []byte) {
+func oracleC06v6(r *Run, b []byte) { oracleC06v6k(r, b, "") }
+
+// oracleC06v6k: key names the known-finding family the input was built for ("" for ordinary inputs)
+func oracleC06v6k(r *Run, b []byte, key string) {
 	m1, err := dhcpv6.FromBytes(append([]byte{}, b...))
 	if err != nil {
 		return
@@ -800,6 +803,10 @@ func oracleC06v6(r *Run, b []byte) {
 		}
 	}()
 	if err != nil {
+		if key != "" {
+			r.FailKey(key, "v6-reencoded-rejected", trunc(cs, 300), err.Error())
+			return
+		}
 		r.Fail("v6-reencoded-rejected", trunc(cs, 3000), err.Error())
 		return
 	}
@@ -916,6 +923,25 @@ func genC06(r *Run) {
 		oracleC06v6(r, b)
 		r.Add(eV6Reenc, b)
 		r.Add(eV6Dec, b)
+	}
+	// F12: a container holding so many embedded DHCPv4 messages shorter than 300 octets that their padded
+	// re-encodings no longer fit the container's 16-bit length field (the one shape the Coq fixpoint theorem excludes)
+	{
+		v4 := make([]byte, 241)
+		copy(v4, []byte{1, 1, 6})
+		copy(v4[236:], []byte{99, 130, 83, 99})
+		v4[240] = 255
+		var inner []byte
+		for k := 0; k < 260; k++ {
+			inner = append(inner, tlvb(87, v4)...)
+		}
+		b := append([]byte{1, 0xaa, 0xbb, 0xcc}, tlvb(3, append(make([]byte, 12), inner...))...)
+		oracleC06v6k(r, b, "v6-reencode-overflow-260-embedded-dhcpv4-in-iana")
+		r.Add(eV6Reenc, b)
+		// the same container just below the overflow settles
+		b = append([]byte{1, 0xaa, 0xbb, 0xcc}, tlvb(3, append(make([]byte, 12), inner[:215*245]...))...)
+		oracleC06v6(r, b)
+		r.Add(eV6Reenc, b)
 	}
 	// targeted non-canonical v6 encodings
 	ip := make([]byte, 16)
